@@ -133,4 +133,5 @@ def harness_config(inst):
         "slow_deliver_us": int(inst.get("slow_deliver_us", 0)),
         "slow_clone_us": int(inst.get("slow_clone_us", 0)),
         "slow_effect_us": int(inst.get("slow_effect_us", 0)),
+        "mw_verdicts": list(inst.get("mw_verdicts") or []),
     }
